@@ -44,6 +44,13 @@ type HOp struct {
 	// epoch asked for is that of the next period; otherwise the function is called directly.
 	ViaHead bool  `json:"via_head,omitempty"`
 	Fire    *Fire `json:"fire,omitempty"`
+	// Mid (fire only): a refresh that takes place while the slot's chain is under way: after its
+	// prepare job (MidStage 1) or after its message job (MidStage 2).  The refresh is for a period
+	// whose window does not hold the slot, so it is the history "fire; refresh" and is printed as
+	// such; the job list recorded for the fire is the one at the time of the refresh without the
+	// fired slot's own jobs in flight (the outcome of the fire records those).
+	Mid      *HOp `json:"mid,omitempty"`
+	MidStage int  `json:"mid_stage,omitempty"`
 }
 
 type histObs struct {
@@ -145,9 +152,46 @@ func runHist(t *testing.T, in *Input) (obs observed) {
 	var seenEpoch, nextRoot uint64
 	seen := false
 
+	// a call or a refresh
+	runOp := func(op *HOp) {
+		e.mu.Lock()
+		e.in = &Input{Par: in.Par, Duties: op.Duties, DutiesErr: op.DutiesErr, Accts: op.Accts, AcctsErr: op.AcctsErr}
+		e.mu.Unlock()
+		ct.SetSlot(op.Cur)
+		ce := op.Cur / in.Par.SPE
+		switch {
+		case op.Kind == "sched":
+			indices := make([]phase0.ValidatorIndex, 0, len(op.Indices))
+			for _, v := range op.Indices {
+				indices = append(indices, phase0.ValidatorIndex(v))
+			}
+			ctrl.ScheduleSyncCommitteeMessagesC15(ctx, phase0.Epoch(op.Epoch), indices, op.NotCur)
+		case op.ViaHead && ce > 0 && ce%in.Par.EPP == 0 && op.Epoch == ce+in.Par.EPP:
+			// a head event for the current slot establishes the dependent roots of this epoch
+			// (unless the controller has already seen one in it) ...
+			if !seen || seenEpoch != ce {
+				// the new previous root is the old current root: no change there
+				_, _, storedCur := ctrl.VerifReorgState()
+				nextRoot++
+				ctrl.VerifCheckEventForReorg(ctx, phase0.Epoch(ce), phase0.Slot(op.Cur), storedCur, dependentRoot(nextRoot))
+				synctest.Wait()
+				seen, seenEpoch = true, ce
+			}
+			// ... and a second one shows a different current duty dependent root
+			_, storedPrev, _ := ctrl.VerifReorgState()
+			nextRoot++
+			ctrl.VerifCheckEventForReorg(ctx, phase0.Epoch(ce), phase0.Slot(op.Cur), storedPrev, dependentRoot(nextRoot))
+		default:
+			ctrl.VerifRefreshSyncCommitteeDutiesForEpochPeriod(ctx, phase0.Epoch(op.Epoch))
+		}
+		// refreshes and the per-slot scheduling run in goroutines: wait for all of them
+		synctest.Wait()
+	}
+
 	for k := range in.Hist {
 		op := &in.Hist[k]
 		var ho histObs
+		var midJobs []jobObs
 		func() {
 			defer func() {
 				if r := recover(); r != nil {
@@ -156,44 +200,29 @@ func runHist(t *testing.T, in *Input) (obs observed) {
 			}()
 			switch op.Kind {
 			case "sched", "refresh":
-				e.mu.Lock()
-				e.in = &Input{Par: in.Par, Duties: op.Duties, DutiesErr: op.DutiesErr, Accts: op.Accts, AcctsErr: op.AcctsErr}
-				e.mu.Unlock()
-				ct.SetSlot(op.Cur)
-				ce := op.Cur / in.Par.SPE
-				switch {
-				case op.Kind == "sched":
-					indices := make([]phase0.ValidatorIndex, 0, len(op.Indices))
-					for _, v := range op.Indices {
-						indices = append(indices, phase0.ValidatorIndex(v))
-					}
-					ctrl.ScheduleSyncCommitteeMessagesC15(ctx, phase0.Epoch(op.Epoch), indices, op.NotCur)
-				case op.ViaHead && ce > 0 && ce%in.Par.EPP == 0 && op.Epoch == ce+in.Par.EPP:
-					// a head event for the current slot establishes the dependent roots of this epoch
-					// (unless the controller has already seen one in it) ...
-					if !seen || seenEpoch != ce {
-						// the new previous root is the old current root: no change there
-						_, _, storedCur := ctrl.VerifReorgState()
-						nextRoot++
-						ctrl.VerifCheckEventForReorg(ctx, phase0.Epoch(ce), phase0.Slot(op.Cur), storedCur, dependentRoot(nextRoot))
-						synctest.Wait()
-						seen, seenEpoch = true, ce
-					}
-					// ... and a second one shows a different current duty dependent root
-					_, storedPrev, _ := ctrl.VerifReorgState()
-					nextRoot++
-					ctrl.VerifCheckEventForReorg(ctx, phase0.Epoch(ce), phase0.Slot(op.Cur), storedPrev, dependentRoot(nextRoot))
-				default:
-					ctrl.VerifRefreshSyncCommitteeDutiesForEpochPeriod(ctx, phase0.Epoch(op.Epoch))
-				}
-				// refreshes and the per-slot scheduling run in goroutines: wait for all of them
-				synctest.Wait()
+				runOp(op)
 			case "fire":
-				fo := fireSlot(ctx, e, ct, sched, op.Fire)
+				var mid func()
+				if op.Mid != nil {
+					mid = func() {
+						for _, j := range snapshotJobs(ct, sched) {
+							if j.Slot != op.Fire.Slot {
+								midJobs = append(midJobs, j)
+							}
+						}
+						runOp(op.Mid)
+					}
+				}
+				fo := fireSlot(ctx, e, ct, sched, op.Fire, mid, op.MidStage)
 				ho.Fire = &fo
 			}
 		}()
 		ho.Jobs = snapshotJobs(ct, sched)
+		if op.Kind == "fire" && op.Mid != nil {
+			// two entries: the fire (job list at the time of the refresh), then the refresh
+			obs.Hist = append(obs.Hist, histObs{Jobs: midJobs, Fire: ho.Fire})
+			ho.Fire = nil
+		}
 		obs.Hist = append(obs.Hist, ho)
 		if obs.Panic != "" {
 			break
@@ -207,8 +236,62 @@ func histInput(in *Input) *Input {
 	all := &Input{Par: in.Par}
 	for _, op := range in.Hist {
 		all.Duties = append(all.Duties, op.Duties...)
+		if op.Mid != nil {
+			all.Duties = append(all.Duties, op.Mid.Duties...)
+		}
 	}
 	return all
+}
+
+// jobRunTerms prints a job list (sorted by slot, then kind) as maximal runs (kind, first slot, count,
+// time of the first, step) of jobs of one kind for consecutive slots whose times advance by a
+// constant step; Check.C15.expand_runs gives the list back (checked here before printing).
+func jobRunTerms(js []jobObs) string {
+	type run struct {
+		kind, slot, n uint64
+		t, dt         int64
+	}
+	var runs []run
+	for _, j := range js {
+		if k := len(runs) - 1; k >= 0 {
+			r := &runs[k]
+			if r.kind == j.Kind && j.Slot == r.slot+r.n && (r.n == 1 || j.T == r.t+int64(r.n)*r.dt) {
+				if r.n == 1 {
+					r.dt = j.T - r.t
+				}
+				r.n++
+				continue
+			}
+		}
+		runs = append(runs, run{kind: j.Kind, slot: j.Slot, n: 1, t: j.T})
+	}
+	var back []jobObs
+	items := make([]string, 0, len(runs))
+	for _, r := range runs {
+		for k := uint64(0); k < r.n; k++ {
+			back = append(back, jobObs{Kind: r.kind, Slot: r.slot + k, T: r.t + int64(k)*r.dt})
+		}
+		items = append(items, "("+N(r.kind)+", "+N(r.slot)+", "+N(r.n)+", "+Z(r.t)+", "+Z(r.dt)+")")
+	}
+	if len(back) != len(js) {
+		panic("job list encoding does not round-trip")
+	}
+	for k := range js {
+		if back[k] != js[k] {
+			panic("job list encoding does not round-trip")
+		}
+	}
+	return List(items)
+}
+
+// refreshTerm: the call the refresh ends with has the sync committee eligible accounts as indices
+// (none when that request fails: the refresh returns after cancelling) and notCurrentSlot false.
+func refreshTerm(op *HOp) string {
+	var idx []uint64
+	if !op.AcctsErr {
+		idx = op.Accts
+	}
+	return App("HRefresh", N(op.Epoch), schedInTerm(op.Epoch, op.Cur, false, idx, op.Duties, op.DutiesErr, op.Accts, op.AcctsErr))
 }
 
 func histTerms(in *Input, obs *observed) (string, string) {
@@ -223,15 +306,12 @@ func histTerms(in *Input, obs *observed) (string, string) {
 		case "sched":
 			ops = append(ops, App("HSched", schedInTerm(op.Epoch, op.Cur, op.NotCur, op.Indices, op.Duties, op.DutiesErr, op.Accts, op.AcctsErr)))
 		case "refresh":
-			// the call the refresh ends with: the sync committee eligible accounts as indices
-			// (none when that request fails: the refresh returns after cancelling), notCurrentSlot false
-			var idx []uint64
-			if !op.AcctsErr {
-				idx = op.Accts
-			}
-			ops = append(ops, App("HRefresh", N(op.Epoch), schedInTerm(op.Epoch, op.Cur, false, idx, op.Duties, op.DutiesErr, op.Accts, op.AcctsErr)))
+			ops = append(ops, refreshTerm(op))
 		default:
 			ops = append(ops, App("HFire", fireInTerm(all, op.Fire)))
+			if op.Mid != nil {
+				ops = append(ops, refreshTerm(op.Mid))
+			}
 		}
 	}
 	hobs := make([]string, 0, len(obs.Hist))
@@ -241,7 +321,7 @@ func histTerms(in *Input, obs *observed) (string, string) {
 		if ho.Fire != nil {
 			fo = Some(fireOutTerm(ho.Fire))
 		}
-		hobs = append(hobs, Pair(jobTerms(ho.Jobs), fo))
+		hobs = append(hobs, Pair(jobRunTerms(ho.Jobs), fo))
 	}
 	return List(ops), List(hobs)
 }
@@ -351,7 +431,11 @@ func genHist(r *Rand) Input {
 			cur++
 			in.Hist = append(in.Hist, fire(cur))
 		}
-		in.Hist = append(in.Hist, refresh(cur, (q+1)*p.EPP, d2r))
+		rf := refresh(cur, (q+1)*p.EPP, d2r)
+		midChain := cur+1 <= E-2 && r.Chance(1, 3)
+		if !midChain {
+			in.Hist = append(in.Hist, rf)
+		}
 		var slots []uint64
 		if cur+1 <= E-2 {
 			slots = append(slots, cur+1)
@@ -367,8 +451,15 @@ func genHist(r *Rand) Input {
 			slots = append(slots, E+uint64(r.Intn(int(E2-2-E+1))))
 		}
 		sort.Slice(slots, func(i, j int) bool { return slots[i] < slots[j] })
-		for _, s := range slots {
-			in.Hist = append(in.Hist, fire(s))
+		for k, s := range slots {
+			op := fire(s)
+			if k == 0 && midChain {
+				// the reorganisation is noticed while the next slot's chain is under way: after its
+				// prepare job or after its message job (slots[0] = cur+1 is a slot of this period)
+				op.Mid, op.MidStage = &rf, r.Range(1, 2)
+				tag(fmt.Sprintf("hist:refresh-mid-chain:%d", op.MidStage))
+			}
+			in.Hist = append(in.Hist, op)
 		}
 		return in
 	}
